@@ -494,6 +494,16 @@ pub fn run_round(spec: &RoundSpec, policy: Policy, faults: Vec<(usize, usize, De
         handles.insert(rid, h);
     };
 
+    // lock contention means that somebody else is connected: an idle second connection keeps the shared wal-index alive, so
+    // that a refused write lock is the refusal a waiting writer sees (without it every new connection first has to rebuild
+    // the wal-index, which takes the same lock and gives up with SQLITE_PROTOCOL instead of waiting)
+    let mut hold: Option<rusqlite::Connection> = None;
+    if spec.lockbusy.is_some() && spec.backend == "sqlite" {
+        if let Ok(c) = rusqlite::Connection::open(dir.join("taskchampion-sync-server.sqlite3")) {
+            let _: i64 = c.query_row("SELECT count(*) FROM clients", [], |r| r.get(0)).unwrap_or(0);
+            hold = Some(c);
+        }
+    }
     let mut io_before = 0i64;
     if crate::shimapi::present() {
         crate::shimapi::io_reset();
@@ -687,6 +697,7 @@ pub fn run_round(spec: &RoundSpec, policy: Policy, faults: Vec<(usize, usize, De
             crate::shimapi::lock_busy(0);
         }
     }
+    drop(hold);
     let fin = seedr.dump();
     let final_state = Runner::st_json(&fin);
     // follow-up requests: served normally?
